@@ -122,7 +122,7 @@ package builder
 // sits one level deeper.
 //@ func (*data/builder.shard).add
 //@ prop C02 C10
-//@ at call (*data/builder.hashBits).Slice#1 assert bucket-is-the-hash-bits-of-this-depth: callee_offset == s.depth * s.sizeLg2 && callee_width == s.sizeLg2
+//@ at call (data/builder.hashBits).Slice#1 assert bucket-is-the-hash-bits-of-this-depth: callee_offset == s.depth * s.sizeLg2 && callee_width == s.sizeLg2
 //@ at call (*data/builder.shard).add#2 assert split-bucket-is-one-level-deeper: callee_recv.depth == s.depth + 1 && callee_recv.size == s.size && callee_recv.sizeLg2 == s.sizeLg2 && callee_recv.width == s.width && callee_recv.hasher == s.hasher
 //@ domain bounded-depth: 0 <= s.depth && s.depth <= 64
 
@@ -151,7 +151,7 @@ package builder
 //@ at call data/builder.BuildUnixFSDirectoryEntry#2 assert entry-link-name-is-prefix-then-name: s.width <= len(callee_name) && substr(callee_name, s.width, len(callee_name)) == e.hamtLink.PBLink.Name.v.x
 
 //@ func data/builder.BuildUnixFSShardedDirectory
-//@ prop C08 C10
+//@ prop C08 C10 C15
 //@ at call (hash.Hash).Sum#1 assert key-is-the-hash-of-exactly-this-entrys-name: hinput(h) == name && len(callee_b) == 0
 //@ domain permitted-fanout: 8 <= size && size <= 1024
 //@ ensures any-write-failure-fails-the-build: (err == nil ==> storeFailed == old(storeFailed)) && (old(storeFailed) ==> storeFailed)
